@@ -186,6 +186,31 @@ def estimator_run(eng, curve, hist, order):
             if not ok:
                 problems.append(('%s-sum' % which, 'indicator of %r is not the sum of its patch values' % (e, )))
             direct[(which, e.glob_idx)] = SR.lift(total)
+    # pool path (in-order stand-in) on a SECOND residual after a first pool call on the same estimator and list:
+    # worker state must not survive between calls
+    from checks import c04 as _c04
+    EE.mp = type('MP', (), dict(Pool=_c04.FakePool, cpu_count=staticmethod(lambda: 4)))()
+    residual2 = lambda t, x_hat, g: np.array([eng.apply('r', SR.lift(tt) + 1, SR.lift(xx)) for tt, xx in
+                                              zip(np.atleast_1d(t), np.atleast_1d(x_hat))], dtype=object)
+    rec_log_len = len(rec.log)
+    try:
+        est.estimate_sobolev(elems, residual, use_mp=True)
+        sob2_pool = est.estimate_sobolev(elems, residual2, use_mp=True)
+        sob2_serial = est.estimate_sobolev(elems, residual2, use_mp=False)
+        for i in range(len(elems)):
+            for col in (0, 1):
+                ok, _ = eng.prove_identity(sob2_pool[i, col], sob2_serial[i, col], 'pool=serial', rtol=1e-12)
+                if not ok:
+                    problems.append(('pool', 'estimate_sobolev through the (in-order) pool differs from the serial result for '
+                                     'a second residual on the same estimator and element list'))
+                    break
+            else:
+                continue
+            break
+    except Inconclusive:
+        raise
+    except Exception as ex:   # the stand-in cannot model everything a pool refactor may do
+        problems.append(('pool-exception', 'pool path raised %r' % (ex, )))
     # symmetric accumulation
     sob = est.estimate_sobolev(elems, residual, use_mp=False)
     for i, e in enumerate(elems):
@@ -296,6 +321,20 @@ def replay(rp):
         est = EE.ErrorEstimator(mesh, N_poly=9)
         d = np.array([[0.3], [0.7]])
         residual = lambda t, x_hat, g: np.asarray(t) * np.sum(d * g(np.asarray(x_hat)), axis=0)
+        if str(rp.get('sig', '')).startswith('pool'):
+            # pool path through the in-order stand-in on the unmodified module: second residual after a first call
+            from checks import c04 as _c04
+            saved_mp = EE.mp
+            EE.mp = type('MP', (), dict(Pool=_c04.FakePool, cpu_count=staticmethod(lambda: 4)))()
+            try:
+                elems = list(mesh.leaf_elements)
+                res2 = lambda t, x_hat, g: (np.asarray(t) + 1.0)**2 * np.sum(d * g(np.asarray(x_hat)), axis=0)
+                est.estimate_sobolev(elems, residual, use_mp=True)
+                a_ = est.estimate_sobolev(elems, res2, use_mp=True)
+                b_ = est.estimate_sobolev(elems, res2, use_mp=False)
+                return not np.allclose(a_, b_, rtol=1e-12, atol=0)
+            finally:
+                EE.mp = saved_mp
         L = gamma.gamma_length
         elems = list(mesh.leaf_elements)
         slo = est.slobodeckij
@@ -366,6 +405,13 @@ def run(out):
         if curve != 'LShape' or not quick:
             for c in range(2 * n0):
                 cases.append(('patch', curve, 1 if quick else 2, order, (c, )))
+        if quick:
+            # two-step directed histories: a leaf and then one of its children again (time/time, space/space and
+            # mixed), which produce stacked / adjacent neighbours of unequal size
+            last = n0 + 1 - 1   # index of the second child after the first bisection (children are appended)
+            for first in (0, 1):
+                for second in (2 * last, 2 * last + 1):
+                    cases.append(('patch', curve, 2, order, (first, second)))
     results = report.pmap('checks.c09', 'worker', cases)
     for c, r in zip(cases, results):
         report.merge_worker(out, r, part='weighted L2' if c[0] == 'l2' else 'patches %s' % c[1])
